@@ -200,6 +200,42 @@ theorem truncate_shape (h : α) (σ : Strat α) :
   intro v _
   exact truncateOne_length h v
 
+/-! ## "only removes small actions", action by action -/
+
+/-- a surviving action never loses probability: the survivors are divided by a total that is at
+most one -/
+theorem truncateOne_survivor_ge (h : α) (v : List α) (hv : IsDist v) (i : Nat) (hi : i < v.length)
+    (hk : h < v[i]) :
+    v[i] ≤ (truncateOne h v)[i]'(by rw [truncateOne_length]; exact hi) := by
+  have hex : ∃ p ∈ v, h < p := ⟨v[i], List.getElem_mem hi, hk⟩
+  have hpos := filter_sum_pos h v hv hex
+  have hle : (v.filter (fun p => h < p)).sum ≤ 1 := by
+    have := filter_sum_le (fun p => decide (h < p)) v hv.1
+    rw [hv.2] at this
+    exact this
+  have h0 : 0 ≤ v[i] := hv.1 _ (List.getElem_mem hi)
+  simp only [truncateOne_spec h v hv hex, List.getElem_map, if_pos hk]
+  rw [le_div_iff₀ hpos]
+  nlinarith
+
+/-- an action at or below the threshold is removed whenever some action exceeds it -/
+theorem truncateOne_small_removed (h : α) (v : List α) (hv : IsDist v) (hex : ∃ p ∈ v, h < p)
+    (i : Nat) (hi : i < v.length) (hs : ¬ h < v[i]) :
+    (truncateOne h v)[i]'(by rw [truncateOne_length]; exact hi) = 0 := by
+  simp only [truncateOne_spec h v hv hex, List.getElem_map, if_neg hs]
+
+/-- truncation never gives probability to an action that had none -/
+theorem truncateOne_no_new_support (h : α) (v : List α) (hv : IsDist v) (i : Nat)
+    (hi : i < v.length) (hz : v[i] = 0) :
+    (truncateOne h v)[i]'(by rw [truncateOne_length]; exact hi) = 0 := by
+  by_cases hex : ∃ p ∈ v, h < p
+  · simp only [truncateOne_spec h v hv hex, List.getElem_map, hz]
+    split_ifs
+    · exact zero_div _
+    · rfl
+  · have hno : ∀ p ∈ v, ¬ h < p := fun p hp hlt => hex ⟨p, hp, hlt⟩
+    simp only [truncateOne_none_exceeds h v hv hno, hz]
+
 /-! ## non-vacuity (over `ℚ`) -/
 
 example : IsDist ([1/2, 1/3, 1/6] : List ℚ) := by
@@ -213,6 +249,12 @@ example : truncateOne (1/5 : ℚ) [1/2, 1/3, 1/6] = [3/5, 2/5, 0] := by
 
 /-- no action exceeds the threshold: unchanged (the defect repaired by the `fix:` commit) -/
 example : truncateOne (1/2 : ℚ) [1/3, 1/3, 1/3] = [1/3, 1/3, 1/3] := by
+  norm_num [truncateOne, lsum, List.filter]
+
+/-- a survivor that really grows (1/2 → 3/5), premises of `truncateOne_survivor_ge` met -/
+example : (1/5 : ℚ) < ([1/2, 1/3, 1/6] : List ℚ)[0] ∧
+    ([1/2, 1/3, 1/6] : List ℚ)[0] < (truncateOne (1/5 : ℚ) [1/2, 1/3, 1/6])[0]'(by
+      rw [truncateOne_length]; decide) := by
   norm_num [truncateOne, lsum, List.filter]
 
 end Cfr
